@@ -26,18 +26,12 @@ type unit struct {
 	SoloErr string            // non-empty: solo compilation failed (error / panic text)
 }
 
-func (u *unit) files(fileLine bool) map[string]string {
-	m := map[string]string{"main.xgo": u.Decls + fmt.Sprintf("\ncase%d\n", u.Idx)}
-	for k, v := range u.Extra {
-		m[k] = v
-	}
-	return m
-}
-
 // soloCompile compiles every unit alone, in-process.
-func soloCompile(units []*unit, opt xgolib.Options) {
+func soloCompile(units []*unit, opt xgolib.Options) { soloCompileSpec(units, opt, defaultSpec) }
+
+func soloCompileSpec(units []*unit, opt xgolib.Options, spec batchSpec) {
 	for _, u := range units {
-		out := xgolib.Compile(u.files(!opt.NoFileLine), opt)
+		out := xgolib.Compile(spec.Compose([]*unit{u}), opt)
 		switch {
 		case out.Panic != nil:
 			u.SoloErr = fmt.Sprintf("panic(%s): %v", out.Stage, out.Panic)
@@ -55,6 +49,7 @@ type batchOutcome struct {
 	Ran      bool
 	BuildErr string // go build failed on a batch that could not be bisected further (single unit)
 	XgoErr   string // XGo failed on the unit inside a batch though it passed alone (never expected)
+	FuncLine map[string]int // linemap: DWARF decl_line of the unit's functions, by Go name
 }
 
 var (
@@ -129,21 +124,19 @@ func planBatches(units []*unit, size int) [][]*unit {
 	return out
 }
 
-// runBatches builds and runs all units; results are keyed by unit index.
-func runBatches(units []*unit, size int, opt xgolib.Options, workers int) map[int]*batchOutcome {
-	res := map[int]*batchOutcome{}
-	var mu sync.Mutex
-	batches := planBatches(units, size)
-	var seq int
-	var run func(b []*unit)
-	run = func(b []*unit) {
-		if len(b) == 0 {
-			return
-		}
-		mu.Lock()
-		seq++
-		name := fmt.Sprintf("b%d", seq)
-		mu.Unlock()
+// batchSpec says how a batch of units becomes one program and how its output maps back to units.
+type batchSpec struct {
+	Compose    func(b []*unit) map[string]string   // XGo files of the batch program
+	Parse      func(stdout string) map[int][]string // unit index -> its output lines
+	Post       func(bin string, b []*unit, res map[int]*batchOutcome) // optional: inspect the built binary
+	FailOnExit bool // a non-zero exit status of the program is bisected like a build failure
+	PlainGo    bool // Compose returns {"main.go": Go source}: no XGo compilation, the Go tool chain only
+}
+
+// defaultSpec: declarations concatenated into main.xgo, `case<idx>` calls as top-level statements,
+// output cut at the `#<idx>` markers.
+var defaultSpec = batchSpec{
+	Compose: func(b []*unit) map[string]string {
 		var sb strings.Builder
 		files := map[string]string{}
 		for _, u := range b {
@@ -157,21 +150,63 @@ func runBatches(units []*unit, size int, opt xgolib.Options, workers int) map[in
 			fmt.Fprintf(&sb, "case%d\n", u.Idx)
 		}
 		files["main.xgo"] = sb.String()
-		out := xgolib.Compile(files, opt)
+		return files
+	},
+	Parse: splitOutput,
+}
+
+// runBatches builds and runs all units; results are keyed by unit index.
+func runBatches(units []*unit, size int, opt xgolib.Options, workers int) map[int]*batchOutcome {
+	return runBatchesSpec(units, size, opt, workers, defaultSpec)
+}
+
+func runBatchesSpec(units []*unit, size int, opt xgolib.Options, workers int, spec batchSpec) map[int]*batchOutcome {
+	res := map[int]*batchOutcome{}
+	var mu sync.Mutex
+	batches := planBatches(units, size)
+	var seq int
+	var run func(b []*unit)
+	run = func(b []*unit) {
+		if len(b) == 0 {
+			return
+		}
+		mu.Lock()
+		seq++
+		name := fmt.Sprintf("b%d", seq)
+		mu.Unlock()
+		files := spec.Compose(b)
+		var out xgolib.Outcome
+		if spec.PlainGo {
+			out.Go = files["main.go"]
+		} else {
+			out = xgolib.Compile(files, opt)
+		}
 		fail := ""
 		kind := ""
 		var rr xgolib.RunResult
+		binPath := ""
+		defer func() {
+			if binPath != "" {
+				os.Remove(binPath)
+			}
+		}()
 		if out.Err != nil || out.Panic != nil {
 			fail, kind = fmt.Sprintf("%v %v", out.Err, out.Panic), "xgo"
 		} else {
 			progMu.Lock()
 			nPrograms++
 			progMu.Unlock()
-			rr = getRunner().Run(name, map[string]string{"main.go": out.Go}, 120*time.Second)
-			if rr.BuildErr != "" {
-				fail, kind = rr.BuildErr, "gobuild"
-			} else if rr.TimedOut {
-				fail, kind = "timeout", "timeout"
+			bin, berr := getRunner().Build(name, map[string]string{"main.go": out.Go})
+			if berr != "" {
+				fail, kind = berr, "gobuild"
+			} else {
+				binPath = bin
+				rr = xgolib.Exec(bin, 600*time.Second)
+				if rr.TimedOut {
+					fail, kind = "timeout", "timeout"
+				} else if spec.FailOnExit && rr.Exit != 0 {
+					fail, kind = fmt.Sprintf("exit %d: %.400s", rr.Exit, rr.Stderr), "exit"
+				}
 			}
 		}
 		if fail != "" {
@@ -179,6 +214,11 @@ func runBatches(units []*unit, size int, opt xgolib.Options, workers int) map[in
 				o := &batchOutcome{}
 				if kind == "xgo" {
 					o.XgoErr = fail
+				} else if kind == "timeout" {
+					// never a verdict: the engine turns a non-zero harness exit into "inconclusive"
+					fmt.Fprintf(os.Stderr, "unit %d: program timed out\n", b[0].Idx)
+					o.XgoErr = "timeout"
+					exitCode = 3
 				} else {
 					o.BuildErr = kind + ": " + fail
 				}
@@ -192,14 +232,21 @@ func runBatches(units []*unit, size int, opt xgolib.Options, workers int) map[in
 			run(b[h:])
 			return
 		}
-		parsed := splitOutput(rr.Stdout)
-		mu.Lock()
+		parsed := spec.Parse(rr.Stdout)
+		local := map[int]*batchOutcome{}
 		for _, u := range b {
 			o := &batchOutcome{}
 			if l, ok := parsed[u.Idx]; ok {
 				o.Ran, o.Lines = true, l
 			}
-			res[u.Idx] = o
+			local[u.Idx] = o
+		}
+		if spec.Post != nil {
+			spec.Post(binPath, b, local)
+		}
+		mu.Lock()
+		for k, v := range local {
+			res[k] = v
 		}
 		mu.Unlock()
 	}
